@@ -255,10 +255,10 @@ func main() {
 		sb.WriteString("}\n")
 		// every exported function / method of the repository that exists today: an exported function that is NOT in this
 		// list is new (e.g. a helper extracted by a refactor) and may be inlined by the second pass
-		sb.WriteString("\n// exported repository functions at freeze time (inline.go helperDecl)\nvar frozenExported = map[string]bool{\n")
+		sb.WriteString("\n// repository functions (exported or not) at freeze time: a function that is not listed is new (inline.go helperDecl)\nvar frozenExported = map[string]bool{\n")
 		for _, k := range sortedKeys(w.Funcs) {
 			fn := w.Funcs[k]
-			if fn == nil || fn.Parent() != nil || !inRepoScope(fn) || fn.Object() == nil || !fn.Object().Exported() {
+			if fn == nil || fn.Parent() != nil || !inRepoScope(fn) || fn.Object() == nil {
 				continue
 			}
 			sb.WriteString("\t" + strconv.Quote(k) + ": true,\n")
@@ -328,20 +328,11 @@ func main() {
 		// overlay mode over every property at once (used by the behaviour-preserving sweep)
 		known, _ := loadKnownFindings(verifDir())
 		n := 0
-		var w2 *World
-		tried2 := false
+		chain := newChain(w, opts)
+		chain.keepAll = true
 		for _, id := range sortedKeys(props) {
 			r, _ := runProp(id, w, "quick")
-			if len(r.openRules(known)) > 0 {
-				if !tried2 {
-					tried2 = true
-					w2 = secondWorld(w, opts)
-				}
-				if w2 != nil {
-					r2, _ := runProp(id, w2, "quick")
-					adoptFromNormalForm(r, r2, known)
-				}
-			}
+			chain.decide(id, "quick", r, known)
 			for _, o := range r.Obls {
 				isKnown := false
 				for _, kf := range known {
@@ -367,12 +358,7 @@ func main() {
 	r, meta := runProp(*prop, w, *tier)
 	{
 		known, _ := loadKnownFindings(verifDir())
-		if len(r.openRules(known)) > 0 {
-			if w2 := secondWorld(w, opts); w2 != nil {
-				r2, _ := runProp(*prop, w2, *tier)
-				adoptFromNormalForm(r, r2, known)
-			}
-		}
+		newChain(w, opts).decide(*prop, *tier, r, known)
 	}
 	if *mutant != "" || *hitsOnly {
 		// mutant mode: print violated keys, never touch evidence
